@@ -118,6 +118,15 @@ def family_units(families, archs, tables, only=None, sec=True, virt=False, tag='
                 if 'cond' in have and 'cond' not in fx:
                     fx['cond'] = 14
                     pin_tag += '/AL'
+                nxt = 1
+                for fld in [n for k, n, w, v in E.items if k == 'f']:
+                    # register-number fields pinned to distinct registers (values stay symbolic): the 34-way register
+                    # multiplexers, not the protection rules, were the cost of these units
+                    if fld in ('Rn', 'Rt', 'Rt2', 'Rm') and fld not in fx:
+                        fx[fld] = nxt
+                        nxt += 1
+                        if '/regs-pinned' not in pin_tag:
+                            pin_tag += '/regs-pinned'
                 kw['fix'] = fx
                 if E.thumb and 'it' not in kw:
                     # Thumb rows inside an IT block whose condition is AL (ITSTATE<7:5> = 111, the rest symbolic and
